@@ -92,7 +92,31 @@ def mk_step(kind, annot, ty, name="a", eq=None, extra=None):
     return {"kind": kind, "fields": [{"name": name, "annot": annot, "ty": ty, "eq": eq}] + list(extra or [])}
 
 
+def subst_alias(ty, target):
+    """The spelling with the target of every alias node replaced."""
+    if isinstance(ty, tuple) and ty and ty[0] == "alias":
+        return ("alias", ty[1], target)
+    if isinstance(ty, tuple):
+        return tuple(subst_alias(x, target) for x in ty)
+    if isinstance(ty, list):
+        return [subst_alias(x, target) for x in ty]
+    return ty
+
+
+def factory_src(case):
+    """def make(T): class S(Structure): <fields written with T>; return S"""
+    lines = []
+    for fd in case["steps"][0]["fields"]:
+        src = P.render(fd["ty"])
+        lines.append(("%s: %s" if fd["annot"] else "%s = %s") % (fd["name"], src))
+    # the parameter SHADOWS a module-level name of the same spelling that means something else
+    return "T = Boolean\ndef make(T):\n    class S(Structure):\n%s\n    return S\n" % "\n".join(
+        "        " + l for l in lines)
+
+
 def step_src(i, step, alias_mode):
+    if alias_mode and step.get("binding") is not None:
+        return "try:\n    S%d = make(%s)\nexcept Exception as _e:\n    S%d = _e\n" % (i, P.render(step["binding"]), i)
     lines = []
     for fd in step["fields"]:
         ty = fd["ty"] if alias_mode else P.inline(fd["ty"])
@@ -158,6 +182,65 @@ def lattice_cases(tier):
     return cases
 
 
+# ----------------------------------------------------------------------------- factories
+# def make(T): class S(Structure): a: T; b: <use of T>  — called several times with DIFFERENT bindings of T.  Under
+# `from __future__ import annotations` the annotation texts ("T", "list[T]") are the same strings at every call and are
+# evaluated in the factory's frame: every call must give the class obtained by writing the binding out.
+
+FACTORY_BINDINGS = [
+    [("name", "int"), ("name", "str"), ("name", "float")],
+    [("fcls", "Integer"), ("fcls", "String"), ("fcls", "Boolean")],
+    [("name", "bool"), ("pep585", "list", [("name", "int")]), ("struct", "Inner"), ("name", "int")],
+    [("inst", {"t": "num", "k": "Integer", "s": "Any", "min": ("int", 1)}), ("name", "str"),
+     ("typing", "List", [("name", "str")])],
+]
+FACTORY_USES = ["alone", "pep585:list", "typing:List", "optional", "union:A,X", "union:X,A,None", "pep585:dict",
+                "sub:Array", "sub:AnyOf[A,X]", "sub:Tuple[A,X]", "sub:Map[String,A]"]
+
+
+def factory_case(bindings, use_kind, rnd, lattice):
+    A = ("alias", "T", bindings[0])
+    uses = {k: (annot, ty) for k, annot, ty in uses_of(A, bindings[0], INT, rnd)}
+    if use_kind not in uses:
+        return None
+    annot, ty = uses[use_kind]
+    steps = []
+    for b in bindings:
+        fields = [{"name": "a", "annot": True, "ty": ("alias", "T", b), "eq": None}]
+        if use_kind != "alone":
+            fields.append({"name": "b", "annot": annot, "ty": subst_alias(ty, b), "eq": None})
+        steps.append({"kind": "make(%s)" % P.top_form(b), "fields": fields, "binding": b})
+    return {"alias": ("name", "int"), "f0": INT, "steps": steps, "lattice": lattice, "factory": True,
+            "use": use_kind}
+
+
+def factory_lattice(tier):
+    import random
+    rnd = random.Random(515151)
+    out = []
+    for bs in FACTORY_BINDINGS:
+        for u in FACTORY_USES:
+            c = factory_case(bs, u, rnd, True)
+            if c:
+                out.append(c)
+    return out
+
+
+def random_factory_case(rnd, gen_semantic_field, ctx, max_depth):
+    bs = []
+    for _ in range(rnd.choice([2, 3, 3, 4])):
+        if rnd.random() < 0.5:
+            bs.append(rnd.choice([b for seq in FACTORY_BINDINGS for b in seq]))
+        else:
+            f = gen_semantic_field(rnd, ctx, max_depth)
+            forms = [x for x in P.forms(f, "general", rnd) if not P.defect_tags(x)]
+            if forms:
+                bs.append(rnd.choice(forms))
+    if len(bs) < 2:
+        return None
+    return factory_case(bs, rnd.choice(FACTORY_USES), rnd, False)
+
+
 def random_case(rnd, gen_semantic_field, ctx, max_depth):
     for _ in range(20):
         f0 = gen_semantic_field(rnd, ctx, max_depth)
@@ -192,15 +275,17 @@ def exec_module(case, ctx, alias_mode, future, observe):
     flags = __future__.annotations.compiler_flag if future else 0
     run = lambda src: exec(compile(src, name + ".py", "exec", flags=flags, dont_inherit=True), mod.__dict__)
     try:
-        run(P.MODULE_IMPORTS)
+        alias_src = factory_src(case) if case.get("factory") else "N = %s\n" % P.render(case["alias"])
+        srcs = [step_src(i, st, alias_mode) for i, st in enumerate(case["steps"])]    # (registers function fields)
+        run(P.module_prelude(alias_src + "".join(srcs)))
         if alias_mode:
             try:
-                run("N = %s\n" % P.render(case["alias"]))
+                run(alias_src)
             except Exception as ex:  # noqa
                 mod.__dict__["N"] = None
                 mod.__dict__["_alias_error"] = ex
-        for i, st in enumerate(case["steps"]):
-            run(step_src(i, st, alias_mode))
+        for i, src in enumerate(srcs):
+            run(src)
             observe(i, mod)
     finally:
         sys.modules.pop(name, None)
@@ -252,11 +337,17 @@ def run_cases(rep, cases, ctx, rnd, per_field, c13):
                     seen[(i, j)] = c13.observe_class(cls, names[i], cands[i], ctx)
                     seen[(i, j)]["_owner_names"] = owner_names(cls, names[i])
             exec_module(case, ctx, True, future, observe)
-            rep.count("alias-modules", 2, (P.signature(case["alias"]), tuple(st["kind"] for st in steps)))
+            stream = "factory-modules" if case.get("factory") else "alias-modules"
+            rep.count(stream, 2, (P.signature(case["alias"]), case.get("use"), tuple(st["kind"] for st in steps)))
             rep.count("behaviour", sum(len(cands[i]) * (k - i + 1) for i in range(k)))
-            rep.stat("alias-modules", "alias:" + P.top_form(case["alias"]))
-            for st in steps:
-                rep.stat("alias-modules", "use:" + st["kind"])
+            if case.get("factory"):
+                rep.stat(stream, "use:" + case["use"] + (",future" if future else ""))
+                for st in steps:
+                    rep.stat(stream, "binding:" + P.top_form(st["binding"]))
+            else:
+                rep.stat(stream, "alias:" + P.top_form(case["alias"]))
+                for st in steps:
+                    rep.stat(stream, "use:" + st["kind"])
             for i in range(k):
                 aspect, detail = c13.first_difference(ref[i], seen[(i, i)])
                 if aspect:
@@ -287,7 +378,9 @@ def report(rep, case, future, i, j, aspect, detail, what, cands, obs=None):
         culprit, victim = None, steps[i]
         others = steps[:i]
     key = None
-    if instance_alias(s0) and victim["kind"].startswith("alone"):
+    shared_instance = (victim.get("binding") is not None and victim["binding"][0] in P.UNIQUE_HEADS) \
+        if case.get("factory") else (instance_alias(s0) and victim["kind"].startswith("alone"))
+    if shared_instance:
         alone_others = [st for st in others if st["kind"].startswith("alone")]
         # ONE Field instance in several slots: its `_name` is whatever the last owner wrote (another class attribute,
         # or the per-element name a collection gives its item field while validating) — seen on the object itself
@@ -297,31 +390,44 @@ def report(rep, case, future, i, j, aspect, detail, what, cands, obs=None):
         elif any(fd["eq"] is not None for st in alone_others + [victim] for fd in st["fields"]) and \
                 aspect in ("default", "required", "behaviour", "definition"):
             key = K_DEFAULT
+    if key is None and aspect == "behaviour" and not case.get("factory") and not instance_alias(s0) and \
+            any(n[0] in P.UNIQUE_HEADS for n in P.walk(s0)):
+        # the alias is a typing / PEP 585 object that CONTAINS a Field instance (frozenset[Enum(...)]): every conversion
+        # wraps that one instance, whose `_name` is then rewritten by whichever collection validated last
+        key = K_NAMES
+    if key is None and case.get("factory"):
+        key = "C13/factory/%s/%s/%suse=%s/call=%d:%s,earlier=%s" % (
+            what, aspect, "future," if future else "", case["use"], i, victim["kind"],
+            "+".join(st["kind"] for st in steps[:i]))
     if key is None:
         key = "C13/alias/%s/%s/alias=%s/%s" % (
             what, aspect, P.top_form(s0),
             ("later=" + culprit["kind"] + ",earlier=" + victim["kind"]) if culprit else
             ("use=" + victim["kind"] + ",after=" + "+".join(st["kind"] for st in others)))
-    alias_src = "N = %s\n" % P.render(s0) + "".join(step_src(n, st, True) for n, st in enumerate(steps))
+    alias_src = (factory_src(case) if case.get("factory") else "N = %s\n" % P.render(s0)) + \
+        "".join(step_src(n, st, True) for n, st in enumerate(steps))
     rep.finding(key, "%s: class S%d %s (%s): %s\n%s" % (
         what, i, ("differs after the definition of S%d" % j) if culprit else "differs from the same class with the "
         "expression written out", aspect, repr(detail)[:300],
         ("from __future__ import annotations\n" if future else "") + alias_src),
-        {"alias_case": {"alias": s0, "steps": steps}, "future": future, "victim": i, "after": j, "mode": what,
-         "candidates": cands, "python": P.MODULE_IMPORTS + alias_src})
+        {"alias_case": {"alias": s0, "steps": steps, "factory": bool(case.get("factory")), "use": case.get("use")},
+         "future": future, "victim": i, "after": j, "mode": what,
+         "candidates": cands, "python": P.module_prelude(alias_src) + alias_src})
 
 
 def replay(obj, ctx, c13):
     case = obj["alias_case"]
     tup = c13._tuplify
-    case = {"alias": tup(case["alias"]),
-            "steps": [{"kind": st["kind"], "fields": [dict(fd, ty=tup(fd["ty"]), eq=tup(fd["eq"])) for fd in st["fields"]]}
+    case = {"alias": tup(case["alias"]), "factory": case.get("factory"), "use": case.get("use"),
+            "steps": [{"kind": st["kind"], "binding": tup(st.get("binding")),
+                       "fields": [dict(fd, ty=tup(fd["ty"]), eq=tup(fd["eq"])) for fd in st["fields"]]}
                       for st in case["steps"]]}
     steps = case["steps"]
     i, j, future = obj["victim"], obj["after"], bool(obj.get("future"))
     names = [fd["name"] for fd in steps[i]["fields"]]
     cands = [[(k, tup(v)) for k, v in kw] for kw in (obj.get("candidates") or [])]
-    print(("from __future__ import annotations\n" if future else "") + "N = %s" % P.render(case["alias"]))
+    print(("from __future__ import annotations\n" if future else "") +
+          (factory_src(case) if case.get("factory") else "N = %s" % P.render(case["alias"])))
     for n, st in enumerate(steps):
         print(step_src(n, st, True).split("\n")[1].strip(), "   ", "; ".join(
             l.strip() for l in step_src(n, st, True).split("\n")[2:-3]))
